@@ -414,6 +414,55 @@ def oracle_boss_votes(case, ctx):
     return discs
 
 
+def oracle_stsf_unbalanced(case, ctx):
+    """SupervisedTimeSeriesForest on a larger, strongly unbalanced panel: its class balancing puts
+    extra copies of the rare class into the bags, so (with 60 instances) every tree sees every
+    class and the probabilities have one column per training class."""
+    n, k, t = case["n_train"], 3, case["t"]
+    rare = case["rare"]
+    counts = [(n - rare) // 2, n - rare - (n - rare) // 2, rare]
+    order = {"last": [0, 1, 2], "first": [2, 0, 1], "middle": [0, 2, 1]}[case["rare_position"]]
+    cls = np.concatenate([np.full(counts[c], c) for c in order])
+    X3 = panelpool.panel_values(case["seed"], n, 1, t)
+    for i in range(n):
+        X3[i] += 3.0 * cls[i]
+    labs = {"int": [0, 1, 2], "str": ["b", "a", "zz"]}[case["label_kind"]]
+    y = np.array([labs[c] for c in cls])
+    ctx.label("rare_class_%s" % case["rare_position"])
+    ctx.mark_nontrivial(True)
+    clf = panelpool.build_classifier({"kind": "stsf", "random_state": case["rs"], "n_estimators": 10})
+    r = sut(clf.fit, X3, y)
+    if isinstance(r, Raised):
+        return [D("fit_raised:stsf:%s@%s" % (r.type, r.where), r.msg)]
+    Xn = panelpool.panel_values(case["seed"] + 5, 9, 1, t)
+    P = sut(clf.predict_proba, Xn)
+    if isinstance(P, Raised):
+        return [D("apply_raised:stsf.predict_proba:%s@%s" % (P.type, P.where), "rare class of %d in %d instances (%s): %s" % (rare, n, case["rare_position"], P.msg))]
+    P = np.asarray(P, dtype=float)
+    discs = []
+    if P.shape != (9, 3):
+        discs.append(D("proba_shape:stsf", "shape %s expected (9, 3)" % (P.shape,)))
+    elif not np.allclose(P.sum(axis=1), 1.0, atol=1e-9) or np.any(P < -1e-12):
+        discs.append(D("proba_rows_do_not_sum_to_one:stsf", "row sums %s" % P.sum(axis=1)[:4].tolist()))
+    pr = sut(clf.predict, Xn)
+    if isinstance(pr, Raised):
+        discs.append(D("apply_raised:stsf.predict:%s@%s" % (pr.type, pr.where), pr.msg))
+    elif not discs:
+        cols = sorted(set(y.tolist()))
+        for i, lab in enumerate(np.asarray(pr).tolist()):
+            if lab not in cols or P[i, cols.index(lab)] < P[i].max() - 1e-9:
+                discs.append(D("predict_not_argmax_of_proba:stsf", "instance %d: %r, probabilities %s" % (i, lab, P[i].tolist())))
+                break
+    return discs
+
+
+@st.composite
+def stsf_cases(draw):
+    return {"n_train": draw(st.sampled_from([60, 72])), "t": draw(st.sampled_from([24, 32])), "rare": draw(st.integers(1, 3)),
+            "rare_position": draw(st.sampled_from(["last", "last", "first", "middle"])), "seed": draw(st.integers(0, 10 ** 6)),
+            "rs": draw(st.integers(0, 100)), "label_kind": draw(st.sampled_from(["int", "str"]))}
+
+
 @st.composite
 def boss_cases(draw):
     return {"n": draw(st.integers(18, 30)), "t": draw(st.sampled_from([32, 40, 48])), "n_classes": draw(st.integers(2, 4)),
@@ -478,6 +527,7 @@ def subchecks():
     return [
         SubCheck("well_formed_every_kind", oracle_wellformed, enumerate_cases=enum_wf_every_kind, shards_quick=16, shards_thorough=16, exhaustive=True),
         SubCheck("well_formed", oracle_wellformed, wf_cases(), quick=360, thorough=5000, shards_quick=12, shards_thorough=16),
+        SubCheck("stsf_unbalanced", oracle_stsf_unbalanced, stsf_cases(), quick=40, thorough=400, shards_quick=8, shards_thorough=16),
         SubCheck("boss_vote_fractions", oracle_boss_votes, boss_cases(), quick=96, thorough=1500, shards_quick=12, shards_thorough=16),
         SubCheck("forest_average_of_trees", oracle_forest, forest_cases(), quick=200, thorough=4000, shards_quick=2, shards_thorough=8),
         SubCheck("column_ensemble_average", oracle_column_ensemble, cec_cases(), quick=200, thorough=3000, shards_quick=2, shards_thorough=8),
@@ -488,4 +538,8 @@ def _sel_nan(case, disc):
     return "nan" in disc["detail"].lower() or "cannot be empty" in disc["detail"]
 
 
-SELECTORS = {"nan_probabilities": _sel_nan}
+def _sel_small_training_set(case, disc):
+    return int(case.get("n_train") or case.get("n") or 0) <= 20
+
+
+SELECTORS = {"nan_probabilities": _sel_nan, "small_training_set": _sel_small_training_set}
